@@ -152,8 +152,8 @@ def first_init_restores_or_records_the_cursor(w: World):
     except BaseException as e:
         raised = e
     if not first:
-        check(raised is None and len(effect_names()) == 0 and em.cursor == stored and em.need_walk == nw0,
-              "not the first step: nothing happens")
+        check(raised is None and len(calls("storage_update_data")) == 0 and len(calls("set_current_cursor")) == 0
+              and em.cursor == stored and em.need_walk == nw0, "not the first step: no cursor is adopted, stored or handed over")
     elif stored is None:
         ups = calls("storage_update_data")
         if raised is None:
@@ -192,7 +192,7 @@ def walk_if_needed_records_completion_last(w: World):
     names = effect_names()
     ups = calls("storage_update_data")
     if not (need and truthy(root)):
-        check(len(names) == 0 and em.need_walk == need, "no walk needed or no root: nothing happens")
+        check(len(calls("_process_event")) == 0 and len(ups) == 0 and em.need_walk == need, "no walk needed or no root: nothing is walked or recorded")
     else:
         for c in calls("_process_event"):
             check(c.kw_from_walk is True, "walked objects are processed as walk events")
